@@ -41,9 +41,14 @@ def classify(prog, events, ans, fails):
     return []
 
 
+KF_PROG = S.default_prog([{"ty": "B", "alias": "a", "all": False, "pred": None}, {"ty": "A", "alias": None, "all": False, "pred": None}],
+                         negs=[{"ty": "A", "pred": ("cmp", "s", "ge", ("s", 2))}])
+KF_EVENTS = [{"id": 0, "ty": "B", "f": {"s": ("s", 2)}}, {"id": 1, "ty": "A", "f": {"s": ("s", 2)}}]
+
+
 def cases_for(run):
     rng = run.rng
-    cases = []
+    cases = [(KF_PROG, KF_EVENTS)]      # the known-finding witness of Sase/Ref.v is replayed on every run
     n = 260 if run.tier == "quick" else 8000
     for i in range(n):
         prog = S.gen_prog(rng, allow_all=False, allow_self=False)
@@ -64,7 +69,28 @@ def check(run):
     binpath = S.build(run, "C02.v")
     if binpath is None:
         return
-    S.drive(run, binpath, cases_for(run), "C02", judge, classify, contradicts="C02_* in coq/theories/Sase/Props.v")
+    cases = cases_for(run)
+    S.drive(run, binpath, cases, "C02", judge, classify, contradicts="C02_* in coq/theories/Sase/Props.v")
+    # the Python reference used as oracle is the Coq definition Sase.Ref.ref_matches: compare them on every case
+    from vplib import coqtools
+    exprs = []
+    for prog, events in cases:
+        steps = "; ".join("mkStep %d %s %s false" % (S.TYPES.index(s["ty"]), S.op_coq(s["pred"]), "None" if s["alias"] is None else "(Some %d)" % S.ALIASES.index(s["alias"])) for s in prog["steps"])
+        negs = "; ".join("(%d, %s)" % (S.TYPES.index(n["ty"]), S.op_coq(n["pred"])) for n in prog["negs"])
+        part = "None" if prog["partition"] is None else "(Some %d)" % S.FIELDS[prog["partition"]]
+        exprs.append("ref_case [%s] [%s] %s [%s]" % (steps, negs, part, "; ".join(S.ev_coq(e) for e in events)))
+    try:
+        got = coqtools.coq_eval("C02ref", S.IMPORTS, exprs, shard=max(10, len(exprs) // 16 + 1), timeout=1800)
+        bad = 0
+        for (prog, events), g in zip(cases, got):
+            mine = sorted(".".join(str(i) for i in m["stack"]) for ms in S.ref_matches_no_all(prog, events) for m in ms)
+            if sorted(x for x in g.split(";") if x) != mine:
+                bad += 1
+                if bad <= 2:
+                    run.tie_broken("Python reference vs Sase.Ref.ref_matches", "%s\n coq %s\n py %s" % (S.describe(prog, events), g, mine))
+        run.extra["reference_cases_compared"] = len(got)
+    except RuntimeError as ex:
+        run.tie_broken("reference evaluation (coqc)", str(ex))
 
 
 def replay(run, path):
